@@ -69,6 +69,7 @@ class Adapter:
         from scared.distinguishers import template as tpl
         self.c, self.kind, self.precision = c, c['kind'], precision
         self.dtype, self.scale = PRESENTATIONS[pres]
+        self.input_modified = None
         self.sub = sub or {'part': 'anova'}.get(self.kind)
         k = self.kind
         classes = None if partitions_auto else np.array(c['classes'], dtype='int32')
@@ -112,10 +113,16 @@ class Adapter:
 
     def update(self, rows):
         t, d = self.arrays(rows)
-        if self.kind == 'ttest':
-            self.o.update(t)
-        else:
-            self.o.update(t, d)
+        t0, d0 = t.copy(), d.copy()
+        try:
+            if self.kind == 'ttest':
+                self.o.update(t)
+            else:
+                self.o.update(t, d)
+        finally:
+            # the batch belongs to the caller (who may feed it to another object next): it must come back as it was given
+            if not (np.array_equal(t, t0) and np.array_equal(d, d0)):
+                self.input_modified = 'traces' if not np.array_equal(t, t0) else 'data'
 
     def compute(self):
         if self.kind == 'ttest':
